@@ -18,8 +18,8 @@ def run_shard(shard, tier, seed):
     t = shard['type']
     n = genhist.nadd_for(t, tier)
     m = 1 if tier == 'quick' else 2
-    cores = [genhist.core_mixed(t, m), genhist.core_additions(t, min(n, 3 if len(ref.DFAS[t].alphabet) <= 12 else 2))]
-    halos = [('failure', 120, 10), ('mixed', 40, 10), ('serialise', 30, 8)] if tier == 'quick' else [('failure', 1500, 14), ('mixed', 600, 12), ('serialise', 400, 10)]
+    cores = [genhist.core_mixed(t, m), genhist.core_additions(t, min(n, 3 if len(ref.DFAS[t].alphabet) <= (6 if tier == 'quick' else 12) else 2))]
+    halos = [('failure', 60, 10), ('mixed', 20, 10), ('serialise', 16, 8)] if tier == 'quick' else [('failure', 1500, 14), ('mixed', 600, 12), ('serialise', 400, 10)]
     return _histcheck.run(shard, tier, seed, PROPERTY, cores, halos, PROPS, shrink_per_presig=3)
 
 
